@@ -229,6 +229,16 @@ def r3(db, rep):
                     and any(last_seg(x[1]) == "condition" for x in calls_in(c)):
                 guards.append(t["otherwise"])
     news = [i for i, t in mir_calls(body) if mir_callee(t) == "executor::driver::Driver::new"]
+    if not guards:
+        # the selection may be written as an iterator chain in a helper / closure (`.is_one().then_some(..)`, `find_map`): the
+        # dominance argument below does not model that; it is a loss of the anchor, not a verdict - unless no guard is evaluated at all
+        elsewhere = False
+        for d_ in db.mir.keys():
+            if d_.startswith("executor::driver::") and d_ != STEP:
+                for i_, t_ in mir_calls(db.mir[d_]):
+                    if last_seg(mir_callee(t_) or "") == "is_one":
+                        elsewhere = True
+        rep.anchor(not elsewhere, "guard evaluation inside Driver::step itself (it is made by a helper or closure: adaptor-chain selection is not modelled)")
     k = 0
     for mstart in multi:
         region = [n for n in news if cfg.dominates(mstart, n)]
